@@ -182,8 +182,8 @@ func (p *PostingsList) iterator(includeFreq, includeNorm, includeLocs bool,
 		return rv, nil
 	}
 
-	// "general" encoding, check if empty
-	if p.postings == nil {
+	// "general" encoding, check if empty (a reused list keeps its cleared bitmap)
+	if p.postings == nil || p.postings.IsEmpty() {
 		return rv, nil
 	}
 
